@@ -241,7 +241,7 @@ class Run:
         for r in viol:
             k = match_known(known, r["name"])
             (known_hits if k else new_viol).append((r, k))
-        rdir = os.path.join(ROOT, "replays", pid)
+        rdir = os.path.join(os.environ.get("VERIF_OUT_DIR") or ROOT, "replays", pid)
         os.makedirs(rdir, exist_ok=True)
         if not self.only:
             for old in os.listdir(rdir):        # a full run replaces the replay files of earlier runs
@@ -283,7 +283,7 @@ class Run:
 
     def _write_replay(self, r):
         safe = re.sub(r"[^A-Za-z0-9_.=,\[\]()-]+", "_", r["name"].split("/", 1)[1])[:150]
-        path = os.path.join(ROOT, "replays", self.pid, safe + ".json")
+        path = os.path.join(os.environ.get("VERIF_OUT_DIR") or ROOT, "replays", self.pid, safe + ".json")
         with open(path, "w") as f:
             json.dump({"property": self.pid, "obligation": r["name"], "reproduced_natively": bool(r.get("reproduced")),
                        "backend": r["backend"], "detail": r["detail"], "replay": r.get("replay"),
@@ -346,8 +346,11 @@ class Run:
             "coverage": cov, "assumptions": self.assumptions, "wall_s": round(wall, 2),
             "violations": len(new_viol),
         }
-        os.makedirs(os.path.join(ROOT, "evidence"), exist_ok=True)
-        with open(os.path.join(ROOT, "evidence", f"{self.pid}.json"), "w") as f:
+        # VERIF_OUT_DIR redirects evidence and replay files (used when the checks are run against a deliberately broken tree, so that the
+        # committed evidence is only ever written by runs on /repo as it is)
+        edir = os.path.join(os.environ.get("VERIF_OUT_DIR") or ROOT, "evidence")
+        os.makedirs(edir, exist_ok=True)
+        with open(os.path.join(edir, f"{self.pid}.json"), "w") as f:
             json.dump(ev, f, indent=1, default=str)
 
 
